@@ -95,39 +95,45 @@ def run(ctx):
         # property broke does not stop this check
         ctx.log("note: coq/lib or coq/model does not build at the moment; C16 does not depend on them, continuing")
     # ---- 1. translate --------------------------------------------------------------------
+    tr = None
     try:
         tr = T_res.translate(ctx.repo)
         gen = T_res.emit_coq(tr)
     except (TranslateError, SyntaxError, OSError, RecursionError) as ex:
         ctx.obligation("translate", False, str(ex))
-        ctx.violation("translate", "translator rejected the source: %s" % ex, {"construct": str(ex)}, found_input=False)
-        return
-    ntab = sum(len(r["configs"]) for r in tr["classes"].values())
-    nent = sum(len(c["table"]) for r in tr["classes"].values() for c in r["configs"])
-    ctx.obligation("translate", True, "%d classes, %d configurations, %d name->entry rows" % (len(tr["classes"]), ntab, nent))
-    ctx.cov["translated_tables"] = ntab
-    ctx.cov["translated_entries"] = nent
-    open(os.path.join(ctx.build, "Gen_Results.v"), "w").write(gen)
+        ctx.violation("translate", "translator rejected the source: %s (the table theorems are not re-proved; the implementation-side specification checks below still run)" % ex,
+                      {"construct": str(ex)}, found_input=False)
     ctx.copy_props("C16/C16_wiring.v", "C16/C16_vonmises.v", "C16/C16_convert.v", "C16/C16_energy.v")
-    # ---- 2. prove ------------------------------------------------------------------------
-    rg = ctx.coq(["Gen_Results.v"], timeout=300)
-    if not rg.ok:
-        ctx.violation("gen-does-not-compile", "generated Gen_Results.v does not compile", {"log": rg.log[-3000:]}, found_input=False)
-        return
-    rw = ctx.coq(["C16_wiring.v"], timeout=600)
-    rv = ctx.coq(["C16_vonmises.v"], timeout=600)
+    rw = rv = None
+    if tr is not None:
+        ntab = sum(len(r["configs"]) for r in tr["classes"].values())
+        nent = sum(len(c["table"]) for r in tr["classes"].values() for c in r["configs"])
+        ctx.obligation("translate", True, "%d classes, %d configurations, %d name->entry rows" % (len(tr["classes"]), ntab, nent))
+        ctx.cov["translated_tables"] = ntab
+        ctx.cov["translated_entries"] = nent
+        open(os.path.join(ctx.build, "Gen_Results.v"), "w").write(gen)
+        # ---- 2. prove --------------------------------------------------------------------
+        rg = ctx.coq(["Gen_Results.v"], timeout=300)
+        if not rg.ok:
+            ctx.violation("gen-does-not-compile", "generated Gen_Results.v does not compile", {"log": rg.log[-3000:]}, found_input=False)
+            tr = None
+        else:
+            rw = ctx.coq(["C16_wiring.v"], timeout=600)
+            rv = ctx.coq(["C16_vonmises.v"], timeout=600)
+    # these two do not depend on the generated tables
     rc = ctx.coq(["C16_convert.v"], timeout=600)
     re_ = ctx.coq(["C16_energy.v"], timeout=600)
-    ctx.sample({"theorem": "component_wiring : forall t, In t all_tables -> forall name, In name (t_adv t) -> covered (t_class t) name = true -> exists e, expected (t_class t) (t_dim t) name = Some e /\\ lookup name (t_tab t) = Some e",
+    ctx.sample({"theorem": "component_wiring : forall t, In t all_tables -> forall name, In name (t_adv t) -> covered (t_class t) name = true -> exists e, expected (t_class t) (t_dim t) (t_edim t) (t_sdim t) name = Some e /\\ lookup name (t_tab t) = Some e",
                 "proof": "vm_compute on the regenerated tables + forallb_forall"})
-    fails = parse_failures(rw.log)
+    fails = parse_failures(rw.log if rw is not None else "")
     ctx.cov["coq_wiring_failures"] = {k: v for k, v in fails.items() if k != "UNADVERTISED_BRANCHES"}
     # informational only: dead branches are outside the property (no obligation, no violation)
     ctx.cov["info_unadvertised_branches"] = ["%s.Result: branch %r is never advertised (unreachable)" % tuple(x) for x in (fails["UNADVERTISED_BRANCHES"] or [])]
     # ---- 3. correspondence ---------------------------------------------------------------
-    tables = {c: {cfg["cfg"]: {"advertised": cfg["advertised"], "table": {k: jsonable(v) for k, v in cfg["table"].items()}} for cfg in rec["configs"]}
-              for c, rec in tr["classes"].items()}
-    req = {"seed": ctx.seed, "tier": ctx.tier, "tables": tables}
+    req = {"seed": ctx.seed, "tier": ctx.tier}
+    if tr is not None:
+        req["tables"] = {c: {cfg["cfg"]: {"advertised": cfg["advertised"], "table": {k: jsonable(v) for k, v in cfg["table"].items()}} for cfg in rec["configs"]}
+                         for c, rec in tr["classes"].items()}
     rcode, out, err = ctx.impl_python(os.path.join(common.VERIF, "corr", "c16_impl.py"), input=json.dumps(req), timeout=1500)
     cases = []
     if rcode != 0 or "@@JSON@@" not in out:
@@ -146,7 +152,7 @@ def run(ctx):
     bad = [c for c in cases if not c["ok"]]
     model_bad = [c for c in bad if c["kind"] == "model"]
     harness_bad = [c for c in bad if c["kind"] == "harness"]
-    ctx.obligation("corr:translated-table-vs-implementation", not model_bad and bool(cases),
+    ctx.obligation("corr:translated-table-vs-implementation", not model_bad and bool(cases) and tr is not None,
                    "; ".join("%s %s %s: %s" % (c["sim"], c["name"], c["form"], c["detail"][:100]) for c in model_bad[:4]))
     ctx.obligation("corr:harness-self", not harness_bad, "; ".join(c["detail"][-200:] for c in harness_bad[:2]))
     spec_bad = [c for c in bad if c["kind"] not in ("model", "harness")]
@@ -162,7 +168,7 @@ def run(ctx):
     seed_of = {c["sim"]: c.get("seed", ctx.seed) for c in cases}
 
     def entry(cls, cfg, name):
-        for cf in tr["classes"][cls]["configs"]:
+        for cf in (tr["classes"][cls]["configs"] if tr is not None else []):
             if cf["cfg"] == cfg:
                 return cf["table"].get(name), cf["dim"]
         return None, None
@@ -191,7 +197,7 @@ def run(ctx):
             ctx.violation(key, what, {"theorem": "component_wiring", "table_entry": jsonable(e)}, found_input=False)
 
     # ---- 4. violations ---------------------------------------------------------------------
-    if not rw.ok:
+    if rw is not None and not rw.ok:
         if fails["WIRING_FAILURES"] is None:
             ctx.violation("proof-broken:C16_wiring.v", "C16_wiring.v no longer compiles and printed no witness list", {"log": rw.log[-3000:]}, found_input=False)
         else:
@@ -202,7 +208,7 @@ def run(ctx):
             if not (fails["WIRING_FAILURES"] or fails["BRANCH_FAILURES"]):
                 ctx.violation("proof-broken:C16_wiring.v", "C16_wiring.v fails although no witness was printed", {"log": rw.log[-3000:]}, found_input=False)
     for r, f in ((rv, "C16_vonmises.v"), (rc, "C16_convert.v"), (re_, "C16_energy.v")):
-        if not r.ok:
+        if r is not None and not r.ok:
             # von Mises: look for a concrete component assignment where the code's formula differs
             found = None
             if f == "C16_vonmises.v":
